@@ -306,6 +306,7 @@ func parseFeedPath(s string) []fop {
 func main() {
 	r := ev.New("C18", "model_checking",
 		"history: every sequence over {add,back,forward} up to the depth bound, replayed on a fresh history.History[int]; "+
+			"a size phase of long runs (2..257 pages opened, 1..300 steps back, a page opened, and the same again from there: 845 sequences of up to 700 operations); "+
 			"feed: breadth-first search over reference-model states (lo,hi,cursor), every transition replayed from scratch on a fresh feed.Feed, "+
 			"observers Contains/IsParent/IsChild/Get at offsets -4..4 and Current compared after the step; "+
 			"two objects alive at once: every interleaving of operation sequences up to depth 3/4 on two feeds (all pairs of creations) and 5/7 on two histories, each object compared with its own model after every step. "+
@@ -408,6 +409,40 @@ func main() {
 		r.Distinct(fmt.Sprintf("h%v", k))
 	}
 	r.States += int64(len(allStates))
+	// ---- history: size phase. Long runs of one operation: many pages opened, many steps back
+	// (so that opening a page discards a long forward branch), then again from there.
+	rep := func(op, n int) []int {
+		out := make([]int, n)
+		for i := range out {
+			out[i] = op
+		}
+		return out
+	}
+	cat := func(parts ...[]int) []int {
+		var out []int
+		for _, p := range parts {
+			out = append(out, p...)
+		}
+		return out
+	}
+	var longRuns, longSteps int64
+	for _, n := range []int{2, 31, 32, 33, 63, 64, 65, 66, 67, 100, 129, 130, 257} {
+		for _, b := range []int{1, 2, 31, 32, 33, 63, 64, 65, 66, 128, 129, 256, 300} {
+			head := cat(rep(hAdd, n), rep(hBack, b))
+			for _, tail := range [][]int{{hAdd}, {hAdd, hBack, hForward, hForward}, cat(rep(hForward, 3), []int{hAdd}),
+				cat([]int{hAdd}, rep(hAdd, 65), rep(hBack, 65), []int{hAdd}), cat([]int{hAdd}, rep(hAdd, 66), rep(hBack, 66), []int{hAdd, hBack, hAdd})} {
+				ops := cat(head, tail)
+				longRuns++
+				longSteps += int64(len(ops))
+				if msg := runHistory(ops, nil); msg != "" {
+					r.Violation("history:long:"+classify(msg), replay{"history", histString(ops), msg})
+				}
+			}
+		}
+	}
+	r.Eval(longRuns)
+	r.Transitions += longSteps
+	r.Extra["history_long_runs"] = longRuns
 	r.Sample(map[string]any{"object": "history", "ops": histString(histSeq(total/3, hdepth))})
 	r.Extra["history_depth"] = hdepth
 	r.Extra["history_sequences"] = total
